@@ -193,7 +193,7 @@ def run(s):
     tmpdir = tempfile.mkdtemp(prefix='verif-c08-')
     try:
         idx = 0
-        per_tag = 7 if q else 42
+        per_tag = 7 if q else 420
         for tag in MESSAGE_TAGS:
             rng = s.rng('tag', tag)
             for variant, doc in tag_docs(rng, tag, per_tag):
@@ -210,7 +210,7 @@ def run(s):
                                               'ea:%s/%s/%s' % (op, tsh, ssh), cfg, tmpdir)
         rng = s.rng('misc')
         pool = gen.text_pool('hostile')
-        n_misc = 120 if q else 6000
+        n_misc = 240 if q else 60000
         base_docs = [d for t in MESSAGE_TAGS for _, d in tag_docs(rng, t, 2)]
         for k in range(n_misc):
             idx += 1
